@@ -3966,6 +3966,118 @@ def c15_writers_flush_group(mir, ctx):
     return [g]
 
 
+def c02_propset_codepage_group(mir, ctx):
+    """PropertySet::read with its two loops unrolled (<= 2 directory entries / values), every reader call
+    succeeding with an arbitrary value: whatever order the values are laid out and listed in, every value that
+    ends up in the returned property set was decoded with the code page the returned set reports."""
+    cands = [f for n, fs in mir.fns.items() for f in fs if n.endswith("::read") and (f.ret or "").replace(" ", "").startswith("Result<PropertySet,")]
+    if len(cands) != 1:
+        raise EncodingError("PropertySet::read not found uniquely (%d)" % len(cands))
+    fn = cands[0]
+    from .mir_protocol import struct_fields
+    psrc = open(os.path.join(REPO, "src/internal/propset.rs")).read()
+    pf = struct_fields(psrc, "PropertySet")
+    pv = enum_variants(psrc, "PropertyValue")
+    lens = {}
+    it_models, what_of, coll = iter_models(ctx, lens, consistent=True)
+    nread = [0]
+
+    def whatv(ex, a):
+        v = ex.load(a)
+        while isinstance(v, RefV):
+            v = ex.load(v.target)
+        return getattr(v, "what", repr(v))
+
+    def m_int(ty):
+        return lambda ex, callee, args, pc, events: [(pc, events, EnumV(variant=0, fields=[ctx.fresh_int("field", ty)]))]
+
+    def m_ok_unit(ex, callee, args, pc, events):
+        return [(pc, events, EnumV(variant=0, fields=[TupleV([])]))]
+
+    def m_pv_read(ex, callee, args, pc, events):
+        nread[0] += 1
+        k = nread[0]
+        cp = whatv(ex, args[1])
+        i2 = EnumV(variant=pv.index("I2"), fields=[ctx.fresh_int("i2_payload", "i16")], ty="PropertyValue::I2")
+        st = EnumV(variant=pv.index("LpStr"), fields=[OpaqueV("text#%d" % k)], ty="PropertyValue::LpStr")
+        i2.tag = k
+        st.tag = k
+        return [(pc, events + [("pv-read", k, cp)], EnumV(variant=0, fields=[i2])), (pc, events + [("pv-read", k, cp)], EnumV(variant=0, fields=[st]))]
+
+    def m_from_id(ex, callee, args, pc, events):
+        k = sum(1 for e in events if e[0] == "from-id")
+        return [(pc, events + [("from-id", k)], EnumV(variant=1, fields=[OpaqueV("cp-from-file#%d" % k)])), (pc, events + [("from-id", k)], EnumV(variant=0, fields=[]))]
+
+    def m_get(ex, callee, args, pc, events):
+        return [(pc, events + [("cp-entry", True)], EnumV(variant=1, fields=[RefV(ctx.fresh_int("cp_offset", "u32"))])), (pc, events + [("cp-entry", False)], EnumV(variant=0, fields=[]))]
+
+    def m_store(ex, callee, args, pc, events):
+        v = ex.load(args[2])
+        return [(pc, events + [("store", getattr(v, "tag", None))], EnumV(variant=0, fields=[]))]
+
+    def m_range_next(ex, callee, args, pc, events):
+        st = ex.heap.setdefault("$range", {"k": 0})
+        k = st["k"]
+        hp = copy.deepcopy(ex.heap)
+        hp["$range"]["k"] = k + 1
+        return [(pc, events, EnumV(variant=1, fields=[M.mk_int(k, "u32")]), hp), (pc, events, EnumV(variant=0, fields=[]), copy.deepcopy(ex.heap))]
+
+    models = [
+        (r"ReadBytesExt>::read_u16::<", m_int("u16")), (r"ReadBytesExt>::read_u32::<", m_int("u32")), (r"as (std::io::)?Read>::read_exact$", m_ok_unit),
+        (r"as Seek>::seek$", lambda ex, callee, args, pc, events: [(pc, events, EnumV(variant=0, fields=[ctx.fresh_int("pos", "u64")]))]),
+        (r"as (std::io::)?Read>::by_ref$", lambda ex, callee, args, pc, events: [(pc, events, ex.load(args[0]))]),
+        (r"^PropertyValue::read::<", m_pv_read), (r"CodePage::from_id$", m_from_id), (r"<CodePage as Default>::default$", lambda ex, callee, args, pc, events: [(pc, events, OpaqueV("cp-default"))]),
+        (r"BTreeMap::<u32, u32>::get::<", m_get), (r"BTreeMap::<u32, u32>::contains_key::<", lambda ex, callee, args, pc, events: [(pc, events, BoolV("false", False))]),
+        (r"BTreeMap::<u32, PropertyValue>::insert$", m_store), (r"BTreeMap::<u32, PropertyValue>::contains_key::<", lambda ex, callee, args, pc, events: [(pc, events, BoolV("false", False))]),
+        (r"<std::ops::Range<u32> as Iterator>::next$", m_range_next), (r"<std::ops::Range<u32> as IntoIterator>::into_iter$", lambda ex, callee, args, pc, events: [(pc, events, ex.load(args[0]))]),
+        (r"PartialOrd>::gt$", lambda ex, callee, args, pc, events: [(pc, events, BoolV("false", False))]),
+    ] + it_models
+    ex = M.Exec(mir, ctx, models=models, havoc_unknown=True, max_paths=400000)
+    ex.max_revisit = deeper(3)
+    ex.no_inline = [r"PropertyValue::(minimum_version|type_name)$", r"PropertyFormatVersion::", r"closure", r"sort"]
+    outs = ex.run(fn, [OpaqueV("reader")])
+    g = Group("propset_codepage", ["propset::PropertySet::read (loops unrolled)"], confirm=_c02_propset_confirm,
+              note="for every layout of <= 2 values: each value stored in the returned property set was read with exactly the code page the returned set "
+                   "reports (the one named by property 1 when the directory lists it, the default otherwise) -- independently of where property 1 is laid "
+                   "out or listed")
+    n = 0
+    for k, o in enumerate(outs):
+        if o.kind != "return" or not (isinstance(o.value, EnumV) and o.value.variant in (0, "Ok")):
+            continue
+        ps = o.value.fields[0]
+        if not (isinstance(ps, EnumV) and len(ps.fields) == len(pf)):
+            raise EncodingError("PropertySet::read returns %r" % (ps,))
+        n += 1
+        cpv = ps.fields[pf.index("codepage")]
+        cpw = getattr(cpv, "what", repr(cpv))
+        reads = {e[1]: e[2] for e in o.events if e[0] == "pv-read"}
+        stored = [e[1] for e in o.events if e[0] == "store"]
+        for tg in stored:
+            if tg is None or tg not in reads:
+                g.queries.append(Query("untracked_%d_%d" % (k, len(g.queries)), o.pc, "unsat", note="a value is stored in the property set that does not come from PropertyValue::read"))
+            elif reads[tg] != cpw:
+                g.queries.append(Query("wrong_codepage_%d_%d" % (k, len(g.queries)), o.pc, "unsat",
+                                       note="a stored value was decoded with %s although the property set reports %s (a string laid out before the code-page property is decoded in the wrong code page)" % (reads[tg], cpw)))
+        entry = [e for e in o.events if e[0] == "cp-entry"]
+        if entry and entry[-1][1] and not cpw.startswith("cp-from-file"):
+            g.queries.append(Query("declared_ignored_%d" % k, o.pc, "unsat", note="the directory lists a code-page property but the returned property set reports %s" % cpw))
+        if len(g.witness) < 40 and stored:
+            g.witness.append(Query("w_%d" % k, o.pc, "sat"))
+    g.queries.append(Query("paths", ["false"], "unsat", note="%d Ok-returning paths examined" % n))
+    if n < 3 or not g.witness:
+        raise EncodingError("propset code page: %d Ok paths, %d with stored values" % (n, len(g.witness)))
+    return [g]
+
+
+def _c02_propset_confirm(model, native):
+    out = native("native::c02::replay_propset_layouts", {})
+    if not out.get("_ran"):
+        return None, "native replay did not run"
+    if out.get("_panicked"):
+        return True, "native property-set replay panicked: %s" % out.get("_panic_msg")
+    return (out.get("differs") == 1), (out.get("witness") or "all %s layouts of an independently encoded property set read back in the declared code page" % out.get("checked"))
+
+
 def c05_all(mir, ctx):
     return c05_update_group(mir, ctx) + c05_insert_group(mir, ctx) + c05_builder_group(mir, ctx)
 
@@ -4093,7 +4205,7 @@ def _proto(which):
 
 BUILDERS = {"C18": c18_groups, "C19": c19_groups, "C14": (lambda mir, ctx: c14_groups(mir, ctx) + c14_chunk_loop_group(mir, ctx)), "C20": c20_all, "C09": c20_groups,
             "C01": _proto({"mutators", "finish", "close"}), "C10": (lambda mir, ctx: _proto({"mutators", "finish"})(mir, ctx) + c10_set_codepage_group(mir, ctx) + c10_size_law_group(mir, ctx)),
-            "C15": (lambda mir, ctx: _proto({"finish", "close"})(mir, ctx) + c15_writers_flush_group(mir, ctx)), "C16": (lambda mir, ctx: _proto({"readonly"})(mir, ctx) + c16_loaded_pool_group(mir, ctx)), "C08": (lambda mir, ctx: c08_all(mir, ctx) + _proto({"finish"})(mir, ctx)), "C04": (lambda mir, ctx: _proto({"reject"})(mir, ctx) + c04_create_table_group(mir, ctx) + c05_update_group(mir, ctx) + c05_insert_group(mir, ctx)), "C11": c11_all, "C07": c07_insert_gate_group, "C12": c12_all, "C05": c05_all, "C13": c13_constructor_group, "C03": c03_all, "C06": c06_enum_gate_group}
+            "C15": (lambda mir, ctx: _proto({"finish", "close"})(mir, ctx) + c15_writers_flush_group(mir, ctx)), "C16": (lambda mir, ctx: _proto({"readonly"})(mir, ctx) + c16_loaded_pool_group(mir, ctx)), "C08": (lambda mir, ctx: c08_all(mir, ctx) + _proto({"finish"})(mir, ctx)), "C04": (lambda mir, ctx: _proto({"reject"})(mir, ctx) + c04_create_table_group(mir, ctx) + c05_update_group(mir, ctx) + c05_insert_group(mir, ctx)), "C11": c11_all, "C07": c07_insert_gate_group, "C12": c12_all, "C05": c05_all, "C13": c13_constructor_group, "C03": c03_all, "C06": c06_enum_gate_group, "C02": c02_propset_codepage_group}
 
 
 def native_confirm_c18(vals, work):
